@@ -319,7 +319,7 @@ def has_line(d):
     """float series and round-trip streams are oracle-only"""
     if d.get('kind') == 'ser' and not all(isinstance(d[k], int) for k in ('start', 'step')):
         return False
-    return d.get('op') in ('idx', 'add', 'runs', 'rt', 'name')
+    return d.get('op') in ('idx', 'add', 'runs', 'rt', 'name')   # xml/file/file2/eq are oracle-only
 
 
 def mk_case(d, stream):
@@ -357,8 +357,12 @@ def impl(case):
     d = case.data
     case.extra = ex = {}
     op = d['op']
-    if op in ('xml', 'file'):
+    if op in ('xml', 'file', 'file2'):
         return impl_roundtrip(case)
+    if op == 'eq':
+        a, b = build_rich_axis(d['a']), build_rich_axis(d['b'])
+        ex['a'], ex['b'] = a, b
+        return 'eq %s %s' % (bool(a == b), bool(b == a))
     kind = d['kind']
     try:
         axis = build_axis(d)
@@ -445,7 +449,119 @@ def build_rich_axis(spec):
         bm = build_rich_axis(spec['bm'])
         return ax.ParcelsAxis.from_brain_models(
             [(NAME(nm), bm[np.array(sel, dtype=int)]) for nm, sel in spec['parcels']])
+    if t == 'perturb':
+        return perturb_axis(build_rich_axis(spec['base']), spec['p'])
     raise ValueError(t)
+
+
+def perturb_axis(a, p):
+    """a near-duplicate of the real axis `a`: exactly one field changed (`p` = [what, j, k]); falls back to an
+    identical rebuilt copy when the perturbation does not apply."""
+    ax = A()
+    what, j, k = p
+    kind = axis_kind(a)
+    n = len(a)
+    j = j % n if n else 0
+    if kind == 'ser':
+        start, step, size, unit = a.start, a.step, a.size, a.unit
+        if what == 'start':
+            start = start + 1 + k
+        elif what == 'step':
+            step = step * 2 + 1
+        elif what == 'size':
+            size = size + 1
+        elif what == 'unit':
+            unit = UNITS[(UNITS.index(unit) + 1 + k % 3) % 4]
+        return ax.SeriesAxis(start, step, size, unit)
+    if kind in ('sc', 'la'):
+        name = [str(x) for x in a.name]
+        meta = [dict(m) for m in a.meta]
+        label = [dict(l) for l in a.label] if kind == 'la' else None
+        if n:
+            if what == 'name':
+                name[j] = name[j] + 'x'
+            elif what == 'meta':
+                meta[j]['extra%d' % k] = 'y'
+            elif what == 'meta-drop' and meta[j]:
+                meta[j].pop(sorted(meta[j])[k % len(meta[j])])
+            elif what == 'label' and kind == 'la':
+                label[j][900 + k] = ('extra', (0.5, 0.25, 0.0, 1.0))
+            elif what == 'label-colour' and kind == 'la' and label[j]:
+                key = sorted(label[j])[k % len(label[j])]
+                nm_, rgba = label[j][key]
+                label[j][key] = (nm_, (rgba[0], rgba[1], rgba[2], 0.75 if rgba[3] != 0.75 else 0.25))
+            elif what == 'label-drop' and kind == 'la' and len(label[j]) > 1:
+                label[j].pop(sorted(label[j])[-1])
+        return ax.ScalarAxis(name, meta) if kind == 'sc' else ax.LabelAxis(name, label, meta)
+    if kind == 'pa':
+        name = [str(x) for x in a.name]
+        voxels = [np.array(v, dtype=int).reshape(-1, 3) for v in a.voxels]
+        vertices = [{str(s_): np.array(v, dtype=int) for s_, v in d_.items()} for d_ in a.vertices]
+        nv = dict(a.nvertices)
+        affine, shape = a.affine, a.volume_shape
+        if n:
+            if what == 'name':
+                name[j] = name[j] + 'x'
+            elif what == 'add-struct':
+                free = [s_ for s_ in sorted(nv) if s_ not in vertices[j]]
+                if free:
+                    s_ = free[k % len(free)]
+                    vertices[j][s_] = np.array([k % nv[s_]], dtype=int)
+            elif what == 'drop-struct' and vertices[j]:
+                vertices[j].pop(sorted(vertices[j])[k % len(vertices[j])])
+            elif what == 'vertex' and vertices[j]:
+                s_ = sorted(vertices[j])[k % len(vertices[j])]
+                vertices[j][s_] = np.append(vertices[j][s_], (int(vertices[j][s_][-1]) + 1) % nv.get(s_, 99))
+            elif what == 'voxel' and shape is not None:
+                voxels[j] = np.concatenate([voxels[j], [[k % shape[0], (k // 2) % shape[1], (k // 3) % shape[2]]]], 0)
+            elif what == 'voxel-drop' and len(voxels[j]):
+                voxels[j] = voxels[j][:-1]
+            elif what == 'nvertices' and nv:
+                s_ = sorted(nv)[k % len(nv)]
+                nv[s_] = nv[s_] + 1
+            elif what == 'affine' and affine is not None:
+                affine = np.array(affine, dtype=float)
+                affine[0, 3] += 1.0
+        vert = np.empty(n, dtype=object)
+        for i in range(n):
+            vert[i] = vertices[i]
+        return ax.ParcelsAxis(name, voxels, vert, affine, shape, nv)
+    if kind == 'bm':
+        name = [str(x) for x in a.name]
+        voxel = np.array(a.voxel, dtype=int)
+        vertex = np.array(a.vertex, dtype=int)
+        nv = dict(a.nvertices)
+        affine, shape = a.affine, a.volume_shape
+        surf = bool(a.surface_mask[j])
+        if what == 'index':
+            if surf:
+                vertex[j] = (vertex[j] + 1) % nv[name[j]]
+            else:
+                voxel[j, k % 3] = (voxel[j, k % 3] + 1) % shape[k % 3]
+        elif what == 'nvertices' and nv:
+            s_ = sorted(nv)[k % len(nv)]
+            nv[s_] = nv[s_] + 1
+        elif what == 'affine' and affine is not None:
+            affine = np.array(affine, dtype=float)
+            affine[1, 3] += 1.0
+        elif what == 'struct':
+            same = [s_ for s_ in STRUCTS if s_ != name[j] and ((s_ in nv) == surf)]   # same nature
+            if same:
+                name[j] = same[k % len(same)]
+        elif what == 'drop-last' and n > 1:
+            name, voxel, vertex = name[:-1], voxel[:-1], vertex[:-1]
+        return ax.BrainModelAxis(np.array(name, dtype='U40'), voxel, vertex, affine, shape, nv)
+    raise ValueError(kind)
+
+
+PERTURBATIONS = {
+    'ser': ['start', 'step', 'size', 'unit', 'none'],
+    'sc': ['name', 'meta', 'meta-drop', 'none'],
+    'la': ['name', 'meta', 'meta-drop', 'label', 'label-colour', 'label-drop', 'none'],
+    'pa': ['name', 'add-struct', 'add-struct', 'drop-struct', 'vertex', 'voxel', 'voxel-drop', 'nvertices', 'affine',
+           'none'],
+    'bm': ['index', 'nvertices', 'affine', 'struct', 'drop-last', 'none'],
+}
 
 
 def axis_kind(axis):
@@ -504,14 +620,27 @@ def impl_roundtrip(case):
     rs = np.random.RandomState(d['dseed'])
     data = rs.randint(-1000, 1000, size=shape).astype(np.float32) / 4
     ex['data'] = data
-    img = cifti2.Cifti2Image(data, hdr)
+    nifti_header = None
+    if d['op'] == 'file2':
+        # an earlier image A (other axes, other data) whose NIfTI header is reused for the new image
+        axes_a = [build_rich_axis(s) for s in d['axes_a']]
+        data_a = rs.randint(-1000, 1000, size=tuple(len(a) for a in axes_a)).astype(np.float32) / 2
+        img_a = cifti2.Cifti2Image(data_a, cifti2.Cifti2Header.from_axes(axes_a))
+        for _ in range(d.get('saves', 1)):
+            bytes_a = img_a.to_bytes()
+        if d['mode'] == 'loaded':
+            img_a = cifti2.Cifti2Image.from_bytes(bytes_a)
+        nifti_header = img_a.nifti_header
+    img = cifti2.Cifti2Image(data, hdr, nifti_header=nifti_header)
     b = img.to_bytes()
+    if d['op'] == 'file2' and d.get('resave'):
+        b = img.to_bytes()
     img2 = cifti2.Cifti2Image.from_bytes(b)
     ex['back'] = [img2.header.get_axis(i) for i in range(len(axes))]
     ex['data_back'] = np.asanyarray(img2.dataobj)
     ex['nifti_dim'] = [int(x) for x in img2.nifti_header['dim']]
     ex['ecodes'] = [e.get_code() for e in img2.nifti_header.extensions]
-    return 'file %s' % (shape,)
+    return '%s %s' % (d['op'], shape)
 
 
 # ------------------------------------------------------------------ oracle
@@ -557,8 +686,17 @@ def oracle(case, out):
     d = case.data
     ex = case.extra or {}
     op = d['op']
-    if op in ('xml', 'file'):
+    if op in ('xml', 'file', 'file2'):
         return oracle_roundtrip(case, out)
+    if op == 'eq':
+        if 'a' not in ex:
+            return 'building the axes raised: ' + out
+        same = describe(ex['a']) == describe(ex['b'])
+        want = 'eq %s %s' % (same, same)
+        if out != want:
+            return (f'{axis_kind(ex["a"])}: (a == b, b == a) = {out[3:]} but the element descriptions are '
+                    f'{"equal" if same else "different"} ({d["b"].get("p") or d["a"].get("p")})')
+        return None
     kind = d['kind']
     if 'build_error' in ex:
         return None           # the constructor refused the description: nothing to index
@@ -721,28 +859,35 @@ def oracle_roundtrip(case, out):
             return f'axis {i} ({axis_kind(a)}): description changed by the {d["op"]} round trip'
         if not (b == a) or not (a == b):
             return f'axis {i} ({axis_kind(a)}): header.get_axis(i) != axes[i] after the {d["op"]} round trip'
-    if d['op'] == 'file':
+    if d['op'] in ('file', 'file2'):
         if ex['data_back'].shape != ex['data'].shape or not np.array_equal(ex['data_back'], ex['data']):
             return 'data matrix changed by the file round trip'
         shape = list(ex['data'].shape)
         dim = ex['nifti_dim']
         if dim[0] != 4 + len(shape) or dim[1:5] != [1, 1, 1, 1] or dim[5:5 + len(shape)] != shape:
             return f'NIfTI-2 dim {dim} does not carry the matrix shape {shape} in dims 5-7'
-        if 32 not in ex['ecodes']:
-            return 'no extension with code 32 in the saved file'
+        if ex['ecodes'].count(32) != 1:
+            return f'{ex["ecodes"].count(32)} extensions with code 32 in the saved file (want exactly 1)'
     return None
 
 
 def signature(case, what):
     d = case.data
     op = d.get('op')
-    if op in ('xml', 'file'):
+    if op == 'eq':
+        return 'eq:' + str((d['b'].get('p') or d['a'].get('p') or ['copy'])[0])
+    if op in ('xml', 'file', 'file2'):
         names = []
-        for sp in d['axes']:
+
+        def collect(sp):
             if sp['t'] == 'raw' and 'name' in sp['d']:
-                names += [NAME(i) for i in sp['d']['name']]
+                names.extend(NAME(i) for i in sp['d']['name'])
             elif sp['t'] == 'parcels':
-                names += [NAME(nm) for nm, _ in sp['parcels']]
+                names.extend(NAME(nm) for nm, _ in sp['parcels'])
+            elif sp['t'] == 'perturb':
+                collect(sp['base'])
+        for sp in d['axes']:
+            collect(sp)
         if 'description changed' in what or '!= axes[i]' in what:
             if any(n == '' for n in names):
                 return 'roundtrip:name-empty'
@@ -765,7 +910,9 @@ def signature(case, what):
 def shrink_candidates(case):
     d = case.data
     op = d.get('op')
-    if op in ('xml', 'file'):
+    if op == 'eq':
+        return
+    if op in ('xml', 'file', 'file2'):
         if len(d['axes']) > 1 and op == 'xml':
             for i in range(len(d['axes'])):
                 d2 = dict(d, axes=d['axes'][:i] + d['axes'][i + 1:])
@@ -975,6 +1122,26 @@ def rand_rich_axis(rng):
     return {'t': 'raw', 'd': d}
 
 
+def rand_near_pair(rng, kind=None):
+    """(base, near-duplicate) specs of one axis kind: equal, or exactly one field perturbed"""
+    kind = kind or rng.choice(['ser', 'sc', 'la', 'pa', 'pa', 'bm'])
+    if kind == 'ser':
+        base = {'t': 'series', 'start': rng.choice([0, 0.5, -3.25, 10]), 'step': rng.choice([0.72, 1, 2.5]),
+                'size': rng.randrange(1, 6), 'unit': rng.randrange(4)}
+    elif kind in ('sc', 'la'):
+        base = {'t': 'raw', 'd': rand_listaxis(rng, kind, rng.randrange(1, 5), XML_SAFE_NAMES)}
+    elif kind == 'pa':
+        bm = rand_rich_bm(rng)
+        n = rich_len(bm)
+        base = {'t': 'parcels', 'bm': bm,
+                'parcels': [[rng.choice(XML_SAFE_NAMES), [rng.randrange(n) for _ in range(rng.randrange(1, 4))]]
+                            for _ in range(rng.randrange(1, 4))]}
+    else:
+        base = rand_rich_bm(rng) if rng.random() < 0.5 else {'t': 'raw', 'd': rand_bm(rng, n=rng.randrange(1, 7))}
+    p = [rng.choice(PERTURBATIONS[kind]), rng.randrange(8), rng.randrange(6)]
+    return base, {'t': 'perturb', 'base': base, 'p': p}
+
+
 def cases(rng, tier):
     out = []
     N = {'quick': 4, 'thorough': 40, 'search': 6}[tier]
@@ -1070,4 +1237,34 @@ def cases(rng, tier):
         if rng.random() < 0.25:
             axes[1] = axes[0]
         out.append(mk_case({'op': 'file', 'axes': axes, 'dseed': rng.randrange(10 ** 6), 'stream': 'file'}, 'file'))
+    # ---- near-duplicate axes in one header (to_header shares a map when `ax in axes[:dim]`), both orders
+    for _ in range({'quick': 1200, 'thorough': 12000, 'search': 2000}[tier]):
+        a, b = rand_near_pair(rng)
+        axes = [a, b] if rng.random() < 0.5 else [b, a]
+        r = rng.random()
+        if r < 0.15:
+            axes.append(rand_rich_axis(rng))
+        elif r < 0.3:
+            axes.insert(rng.randrange(3), rng.choice([a, b]))
+        if rng.random() < 0.7:
+            out.append(mk_case({'op': 'xml', 'axes': axes, 'stream': 'xml-near'}, 'xml-near'))
+        else:
+            out.append(mk_case({'op': 'file', 'axes': axes, 'dseed': rng.randrange(10 ** 6), 'stream': 'file-near'},
+                               'file-near'))
+    # ---- __eq__ against description equality (symmetry), oracle only
+    for _ in range({'quick': 1500, 'thorough': 15000, 'search': 2000}[tier]):
+        a, b = rand_near_pair(rng)
+        if rng.random() < 0.5:
+            a, b = b, a
+        out.append(mk_case({'op': 'eq', 'a': a, 'b': b, 'stream': 'eq'}, 'eq'))
+    # ---- save B with the NIfTI header of an earlier loaded / saved image A
+    for _ in range({'quick': 300, 'thorough': 4000, 'search': 500}[tier]):
+        axes_a = [rand_rich_axis(rng) for _ in range(rng.choice([2, 2, 3]))]
+        axes = [rand_rich_axis(rng) for _ in range(rng.choice([2, 2, 3]))]
+        if rng.random() < 0.3:
+            a, b = rand_near_pair(rng)
+            axes_a[0], axes[0] = a, b
+        out.append(mk_case({'op': 'file2', 'axes_a': axes_a, 'axes': axes, 'mode': rng.choice(['loaded', 'saved']),
+                            'saves': rng.choice([1, 1, 2]), 'resave': rng.random() < 0.3,
+                            'dseed': rng.randrange(10 ** 6), 'stream': 'file2'}, 'file2'))
     return out
